@@ -31,7 +31,10 @@ class Contract:
                  raises=None, modifies=(), loops=None, locals=None, kind="verified", pure=False,
                  fresh_result=False, note="", strings="opaque", inline=False, anon_raises=False,
                  crash_inv=None, variant_checks=True, defs=None, ghost_updates=(), assume_body=(), ghost_ensures=(), reads=None,
-                 lock_wrapper=None):
+                 lock_wrapper=None, trusted_ensures=()):
+        # clauses callers may assume although they are NOT checked against the body (environment facts,
+        # open proof obligations): every use is reported in the evidence as an unchecked assumption
+        self.trusted_ensures = list(trusted_ensures)
         # higher-order lock wrapper (DESIGN 3.4.4): dict(ghost=<lock ghost>, func_index=<position of the callable>,
         # marker=<ghost set when an exception leaves the critical section>)
         self.lock_wrapper = lock_wrapper
